@@ -113,10 +113,20 @@ func c04body(sc c04cfg) func() {
 		conn, rec := conns[last], recs[last]
 		// --- monitor predicate
 		verified := sc.tlsMode == "skip-verify" || sc.cert == "valid"
-		var clear bytes.Buffer
+		var raw bytes.Buffer
 		for _, r := range *conn.raw.Peer().Log {
 			if r.ToSrv {
-				clear.Write(r.Data)
+				raw.Write(r.Data)
+			}
+		}
+		// what the client wrote in clear: everything up to its first TLS record (a handshake record, 0x16 0x03 ..,
+		// after its <starttls/> request). The records themselves are opaque: searching cipher text for the
+		// sensitive element names would, once in a few thousand executions, find "<iq" by chance.
+		var clear bytes.Buffer
+		clear.Write(raw.Bytes())
+		if i := bytes.Index(raw.Bytes(), []byte("<starttls")); i >= 0 {
+			if j := bytes.Index(raw.Bytes()[i:], []byte{0x16, 0x03}); j >= 0 {
+				clear.Truncate(i + j)
 			}
 		}
 		ctx := fmt.Sprintf("%s, server steps %v", sc.name(), rec.Steps)
